@@ -123,6 +123,7 @@ React(mm, c, o) ==
 \* d.callback / d.errback on a Deferred that already has the user's callbacks
 Fire(mm, c, o) ==
   IF c = 0 THEN [mm EXCEPT !.exc = TRUE]
+  ELSE IF mm.res[c].k = "gone" THEN mm          \* the caller gave up on it: the outcome goes nowhere, silently
   ELSE IF mm.res[c].k # "p" THEN [mm EXCEPT !.exc = TRUE]
   ELSE React([mm EXCEPT !.res[c] = o], c, o)
 
@@ -133,7 +134,8 @@ MaybeIssue(mm) ==
        IN IF mm.lost
           THEN \* already_fired(d): d is the Deferred queue_command is about to return, so the
                \* user's callbacks are attached (and run) only after queue_command has returned
-               IF mm.res[c].k # "p" THEN [m1 EXCEPT !.exc = TRUE]
+               IF mm.res[c].k = "gone" THEN [m1 EXCEPT !.command = 0]
+               ELSE IF mm.res[c].k # "p" THEN [m1 EXCEPT !.exc = TRUE]
                ELSE LET o  == Out("disc", "", <<>>)
                         m2 == [m1 EXCEPT !.res[c] = o]
                     IN IF "c03_stuck" \in Dev THEN React(m2, c, o)
@@ -314,6 +316,15 @@ CbReturns == {"none", "one", "zero", "defer", "text"}
 \* the spot: it was never submitted - what the code does) or accepted, and then it is a command like any other, to be
 \* written, resolved by its reply and failed by a loss.  Recorded traces say which happened (field `acc` of a
 \* submission of kind "na"); the trace specification takes the corresponding branch.
+\* The caller of a plain command that is still waiting in the queue gives up on it (cancels its Deferred, or a
+\* timeout it put on it expires).  The command keeps its place: it is written when its turn comes and Tor's reply
+\* to it is consumed like any other - only nobody is told - so the commands behind it are not disturbed.
+GiveUp(c) ==
+  /\ c \in SeqToSet(m.queue) /\ m.cmds[c].kind = "plain" /\ m.res[c].k = "p" /\ ~m.lost
+  /\ m' = [Reset(m) EXCEPT !.res[c] = Out("gone", "", <<>>)]
+  /\ cnt' = [cnt EXCEPT !.lop = @ + 1]
+  /\ UNCHANGED <<pending, cur, replies, nline, nev, reg, exp, may>>
+
 SubmitRefused == m' = Reset(m) /\ UNCHANGED <<pending, cur, replies, nline, nev, reg, exp, may, cnt>>
 Submit(kind) ==
   /\ kind \in {"plain", "cb", "retry", "chain", "closer"}
@@ -391,6 +402,7 @@ Next ==
   \/ \E k \in SubmitKinds : Submit(k) /\ (IF m.lost THEN cnt.post < MaxPost ELSE cnt.sub < MaxCmd)
   \/ \E l \in Listeners, n \in EvNames : (AddL(l, n) \/ RemL(l, n)) /\ cnt.lop < MaxLop /\ ~m.lost
   \/ \E k \in {"plain", "again", "submit"} : WhenDisc(k) /\ cnt.disc < MaxDisc
+  \/ \E c \in 1..Len(m.cmds) : GiveUp(c) /\ cnt.lop < MaxLop
   \/ \E rs \in ReplyShapes : BeginReply(rs[1], rs[2])
   \/ \E n \in EvNames, sh \in EventShapes : BeginEvent(n, sh) /\ nev < MaxEv
   \/ Line
@@ -423,7 +435,8 @@ ReplyMatches(n) ==
 \* C01: the n-th complete reply resolves the n-th command; C03: after loss nothing is pending
 Outcomes ==
   \A n \in 1..NCmds :
-    IF n <= Len(replies) THEN ReplyMatches(n)
+    IF m.res[n].k = "gone" THEN TRUE             \* (given up by its caller while it was queued)
+    ELSE IF n <= Len(replies) THEN ReplyMatches(n)
     ELSE IF m.lost THEN m.res[n].k = "disc"
     ELSE m.res[n].k = "p"
 
